@@ -121,7 +121,29 @@ def _build_pair(rng, ns, no, mode, cell):
     else:
         kinds, tables = _compat_opts(rng, a)
         o = atomsgen.gen_atoms(rng, no, tag="O", id_base=2000.0, cell=None, kinds=kinds, tables=tables, pair=len(a.pair_coeffs) > 0)
+    if (ns + no) % 3 == 0:
+        _numeric_extras(o)
+        if ns % 2:
+            _numeric_extras(a)
     return a, o
+
+
+NUMERIC_EXTRAS = [0]
+
+
+def _numeric_extras(x):
+    """the extra columns hold numbers and flags rather than text (occupancies, formal charges, flags set by a script): among them
+    values that are real but falsy - 0, 0.0, False"""
+    vals = [0, 5, 0.0, 2.5, False, 7, True, -1]
+    for kind in ["atom"] + list(atomsgen.KNAMES):
+        xf = np.asarray(getattr(x, "extra_%s_fields" % kind), dtype=object)
+        if xf.size:
+            new = np.empty(xf.shape, dtype=object)
+            for r in range(xf.shape[0]):
+                for c in range(xf.shape[1]):
+                    new[r, c] = vals[(r * 3 + c) % len(vals)]
+            setattr(x, "extra_%s_fields" % kind, new)
+            NUMERIC_EXTRAS[0] += 1
 
 
 def _add_override(rng, a, o, idx_map):
@@ -308,7 +330,10 @@ def run_case(case, ctx):
         st.seen("large_size_class", n // 100000)
         ctx.nontrivial([case["s"], case["mode"], "large"])
         return
+    n0 = NUMERIC_EXTRAS[0]
     a, o = _build_pair(rng, case["ns"], case["no"], case["mode"], ["ortho", None][case["s"] % 2])
+    if NUMERIC_EXTRAS[0] > n0:
+        st.count("extensions_with_numbers_and_flags_in_extra_columns")
     if case["kind"] == "exhaustive":
         maps = atomsgen.partial_injections(case["no"], case["ns"])
         for idx_map in maps:
@@ -368,6 +393,8 @@ def requirements(stats, tier):
     for kind in atomsgen.KNAMES:
         if not any(x.startswith(kind + ":forward") for x in ov) or not any(x.startswith(kind + ":reversed") for x in ov):
             need.append("no forward+reversed override observed for %s (%s)" % (kind, sorted(ov)))
+    if stats.get("extensions_with_numbers_and_flags_in_extra_columns") < (10 if tier == "quick" else 500):
+        need.append("extensions with numbers / flags (0, 0.0, False among them) in extra columns: %d" % stats.get("extensions_with_numbers_and_flags_in_extra_columns"))
     if stats.nseen("extra_label_merge") < 3:
         need.append("extra-column label merging observed for fewer than 3 loops")
     return need
